@@ -172,7 +172,7 @@ class Ctx:
                 m = re.match(r'<<"TRACE_RESULT", (\d+), (\d+)>>', line)
                 if m:
                     reached, total = int(m.group(1)), int(m.group(2))
-                m = re.match(r'<<"KF", (.*)>>', line)
+                m = re.match(r'<<"KF", "(.*)">>', line)
                 if m:
                     notes.append(m.group(1))
                 if line.startswith("Error:") or "is violated" in line:
@@ -201,6 +201,8 @@ class Ctx:
             reached, total, errors, wall, notes = self._validate_once(
                 module, cfg_text, cur_path, "%s-%d" % (name, attempt), timeout)
             log("[trace] %s: %d/%d records accepted (%.1fs)" % (name, reached, total, wall))
+            for kid in notes:
+                self.known_fired(kid)
             if errors and reached >= total:
                 raise ToolError("TLC error during trace validation %s: %s" % (name, errors[:2]))
             if reached >= total:
@@ -230,6 +232,19 @@ class Ctx:
         self.cov["trace_runs"].append({"module": module, "name": name, "records": accepted_events,
                                        "runs": nruns_total, "rejected_runs": rejected_runs})
         return rejected_runs == 0
+
+    def known_ids(self):
+        return sorted(k["id"] for k in self.known.get("findings", []) if k.get("property") == self.pid)
+
+    def known_fired(self, kid):
+        """A named deviation (KF_ action of the spec) was used by TLC while validating."""
+        for kf in self.known.get("findings", []):
+            if kf["id"] == kid and kf.get("property") == self.pid:
+                if kid not in self.known_hits:
+                    self.known_hits.append(kid)
+                    log("KNOWN-FINDING: property=%s %s: %s" % (self.pid, kid, kf["what"]))
+                return
+        raise ToolError("spec used deviation %s which is not listed for %s in known_findings.json" % (kid, self.pid))
 
     def _count_distinct(self, recs, describe):
         prev_state = None
